@@ -221,7 +221,17 @@ fn worker<SubProblem: Ord + Send + fmt::Debug, Solution: Send, Score: Ord + Copy
                 let subproblem_formatted = format!("{:?}", subproblem);
                 debug!("Solving subproblem: {}", subproblem_formatted);
                 let tic = time::Instant::now();
-                let result = node_solver(subproblem);
+                let result = match std::panic::catch_unwind(std::panic::AssertUnwindSafe(|| {
+                    node_solver(subproblem)
+                })) {
+                    Ok(result) => result,
+                    Err(panic_payload) => {
+                        // Don't let the other workers wait for this thread forever
+                        bab.shared_state.lock().unwrap().busy_threads -= 1;
+                        bab.condvar.notify_all();
+                        std::panic::resume_unwind(panic_payload);
+                    }
+                };
                 let consumed_time = tic.elapsed();
 
                 // Reacquire shared_state lock and interpret subproblem result
